@@ -17,6 +17,7 @@ func init() {
 	vrt.Register("C04_members", Members)
 	vrt.Register("C04_iterables", Iterables)
 	vrt.Register("C04_calls", Calls)
+	vrt.Register("C04_typed_parameters", TypedParameters)
 	vrt.Register("C04_helpers", Helpers)
 	vrt.Register("C04_helpers_iter", HelpersIter)
 	vrt.Register("C04_user_functions", UserFunctions)
@@ -453,4 +454,34 @@ func NestedRender() {
 	default:
 		total("<%= inchild() { %>"+sn+"<% } %>", ctx)
 	}
+}
+
+// ---- Go functions with parameters of less common types (arrays, pointers to
+// arrays, sized and unsigned numbers, named types, maps with other key types,
+// func values, variadic arrays) called with every value kind: the argument is
+// accepted or the call is an error, never a panic - also where Go could convert
+// the argument's type but not its value (a slice shorter than the array)
+func TypedParameters() {
+	ctx := plush.NewContext()
+	ctx.Set("arr4", func(a [4]int) int { return a[3] })
+	ctx.Set("parr2", func(p *[2]int) int { return p[1] })
+	ctx.Set("varr", func(xs ...[2]int) int { return len(xs) })
+	ctx.Set("i8", func(n int8) int8 { return n })
+	ctx.Set("u16", func(n uint16) uint16 { return n })
+	ctx.Set("f32", func(x float32) float32 { return x })
+	ctx.Set("nm", func(s named) named { return s })
+	ctx.Set("mk", func(m map[int]string) int { return len(m) })
+	ctx.Set("fnp", func(f func(int) int) int { return 1 })
+	ctx.Set("bs", func(b []byte) int { return len(b) })
+	ctx.Set("ss", func(s []string) int { return len(s) })
+	ctx.Set("ip", func(p *int) int { return 0 })
+	ctx.Set("st", func(s S) string { return s.Name })
+	ctx.Set("er", func(e error) string { return "e" })
+	fns := []string{"arr4", "parr2", "varr", "i8", "u16", "f32", "nm", "mk", "fnp", "bs", "ss", "ip", "st", "er"}
+	f := fns[vrt.Choice(len(fns))]
+	ctx.Set("a", val(vrt.Choice(nKinds)))
+	ctx.Set("short", []int{1})
+	ctx.Set("long", []int{1, 2, 3, 4, 5})
+	args := []string{"a", "short", "long", "[]", "[1, 2]", "\"s\"", "a, a"}
+	total("<%= "+f+"("+args[vrt.Choice(len(args))]+") %>", ctx)
 }
